@@ -250,6 +250,119 @@ def external_sites():
     return rows
 
 
+# ------------------------------------------------------------------------------------------------
+# `_trs2llh`: the selection between pole branch and Halley branch (boolean-mask assignments), and `empty_from` of deltas
+
+TRANSFORMATION_PY = "midgard/math/transformation.py"
+_SEL_VALUES = {"tmp_lat": ".tmpLat", "tmp_height": ".tmpHeight", "pi / 2": ".halfPi", "absz - ellipsoid.b": ".poleHeight"}
+_SEL_INIT = {"np.zeros(len(trs)) if trs.ndim == 2 else 0": ".zero"}
+_PI_DEF = "np.ones(len(trs)) * np.pi if trs.ndim == 2 else np.pi"
+
+
+def _mask_of(e: ast.AST):
+    """`pole_idx` → .pole, `~pole_idx` → .notPole"""
+    if isinstance(e, ast.Name) and e.id == "pole_idx":
+        return ".pole"
+    if isinstance(e, ast.UnaryOp) and isinstance(e.op, ast.Invert) and isinstance(e.operand, ast.Name) and e.operand.id == "pole_idx":
+        return ".notPole"
+    return None
+
+
+def _sel_stmt(st: ast.stmt, mask_ctx=None):
+    """one statement that stores into `lat` / `height` → Lean `SelStmt` (or None if it does not touch them)"""
+    tg = {"lat": ".lat", "height": ".height"}
+    stores = [n.id for n in ast.walk(st) if isinstance(n, ast.Name) and isinstance(n.ctx, ast.Store) and n.id in tg]
+    sub_stores = [n.value.id for n in ast.walk(st) if isinstance(n, ast.Subscript) and isinstance(n.ctx, ast.Store)
+                  and isinstance(n.value, ast.Name) and n.value.id in tg]
+    if not stores and not sub_stores:
+        return None
+    if isinstance(st, ast.Assign) and len(st.targets) == 1:
+        t, v = st.targets[0], st.value
+        if isinstance(t, ast.Name) and t.id in tg:
+            src = ast.unparse(v)
+            if src in _SEL_INIT and mask_ctx is None:
+                return f"(.assign {tg[t.id]} .all {_SEL_INIT[src]})"
+            if src in _SEL_VALUES and mask_ctx is not None:
+                return f"(.assign {tg[t.id]} {mask_ctx} {_SEL_VALUES[src]})"
+            return ".opaque"
+        if isinstance(t, ast.Subscript) and isinstance(t.value, ast.Name) and t.value.id in tg and mask_ctx is None:
+            m = _mask_of(t.slice)
+            # the right-hand side is `<value>[<the same mask>]`
+            if m and isinstance(v, ast.Subscript) and _mask_of(v.slice) == m and ast.unparse(v.value) in _SEL_VALUES:
+                return f"(.assign {tg[t.value.id]} {m} {_SEL_VALUES[ast.unparse(v.value)]})"
+            return ".opaque"
+    if isinstance(st, ast.AugAssign) and isinstance(st.op, ast.Mult) and isinstance(st.target, ast.Name) and st.target.id in tg \
+            and ast.unparse(st.value) == "np.sign(z)" and mask_ctx is None:
+        return f"(.mulSign {tg[st.target.id]})"
+    return ".opaque"
+
+
+def selection_programs():
+    """the statements of `_trs2llh` that store into `lat` / `height`, in execution order, once for `trs.ndim == 2` and once
+    for a single position; plus the order of `np.stack((…)).T` and whether `pi` is `np.pi` in both shapes"""
+    tree = ast.parse((util.REPO / TRANSFORMATION_PY).read_text())
+    fn = next((n for n in tree.body if isinstance(n, ast.FunctionDef) and n.name == "_trs2llh"), None)
+    if fn is None:
+        return [".opaque"], [".opaque"], [], False
+    prog2, prog1, stack, pi_ok = [], [], [], False
+    for st in fn.body:
+        if isinstance(st, ast.Assign) and len(st.targets) == 1 and isinstance(st.targets[0], ast.Name) and st.targets[0].id == "pi":
+            pi_ok = ast.unparse(st.value) == _PI_DEF
+            continue
+        if isinstance(st, ast.If) and ast.unparse(st.test) == "trs.ndim == 2":
+            for b in st.body:
+                r = _sel_stmt(b)
+                prog2.append(r if r is not None else ".opaque")
+            # the single-position arm: `if pole_idx: … else: …` of plain assignments
+            arm = st.orelse
+            if len(arm) == 1 and isinstance(arm[0], ast.If) and _mask_of(arm[0].test) == ".pole":
+                for b in arm[0].body:
+                    r = _sel_stmt(b, ".pole")
+                    prog1.append(r if r is not None else ".opaque")
+                for b in arm[0].orelse:
+                    r = _sel_stmt(b, ".notPole")
+                    prog1.append(r if r is not None else ".opaque")
+            else:
+                prog1.append(".opaque")
+            continue
+        if isinstance(st, ast.Return):
+            v = st.value
+            if (isinstance(v, ast.Attribute) and v.attr == "T" and isinstance(v.value, ast.Call) and ast.unparse(v.value.func) == "np.stack"
+                    and len(v.value.args) == 1 and isinstance(v.value.args[0], ast.Tuple)):
+                stack = [ast.unparse(e) for e in v.value.args[0].elts]
+            continue
+        r = _sel_stmt(st)
+        if r is not None:
+            prog2.append(r)
+            prog1.append(r)
+        elif any(isinstance(n, (ast.If, ast.For, ast.While, ast.Try)) for n in ast.walk(st)):
+            prog2.append(".opaque")   # control flow the extractor does not know
+            prog1.append(".opaque")
+    return prog2, prog1, stack, pi_ok
+
+
+def delta_empty_from():
+    """`PositionDeltaArray.empty_from` (inherited by PosVelDeltaArray): the `ellipsoid=` of the NaN reference position"""
+    tree = ast.parse((util.REPO / POSITION_PY).read_text())
+    cl = _classes(tree)
+    rows = []
+    for cname in ("PositionDeltaArray", "PosVelDeltaArray"):
+        node = cl.get(cname)
+        for fn in (node.body if node else []):
+            if isinstance(fn, ast.FunctionDef) and fn.name == "empty_from":
+                what = "bad"
+                for c in ast.walk(fn):
+                    if isinstance(c, ast.Call):
+                        kws = {k.arg: k.value for k in c.keywords if k.arg}
+                        if "ellipsoid" in kws and "ref_pos" not in kws:
+                            what = "keep" if ast.unparse(kws["ellipsoid"]) == "other.ref_pos.ellipsoid" else "bad"
+                        elif "ellipsoid" in kws:
+                            what = "bad"
+                            break
+                rows.append((CLASSES[cname], what))
+    return rows
+
+
 def render() -> str:
     src = (util.REPO / POSITION_PY).read_text()
     rows, inplace = branches(src)
@@ -282,14 +395,44 @@ def render() -> str:
         ",\n".join(f"  ({util.lean_str(m)}, {util.lean_str(f)}, .{w})" for m, f, w in external_sites()),
         "]",
         "",
+        "/-- `empty_from` of the difference classes: the `ellipsoid=` of the NaN reference position (`keep` = `other.ref_pos.ellipsoid`) -/",
+        "def deltaEmptyFrom : List (ACls × ExtFwd) := [" + ", ".join(f"({c}, .{w})" for c, w in delta_empty_from()) + "]",
+        "",
         "end Midgard.Generated.EllipsoidArith",
         "",
     ]
     return "\n".join(out)
 
 
+def render_select() -> str:
+    prog2, prog1, stack, pi_ok = selection_programs()
+    out = [
+        "/- GENERATED by translator/extract_c05.py (ast over midgard/math/transformation.py `_trs2llh`) — do not edit. -/",
+        "import Midgard.Model.GeoSelect",
+        "namespace Midgard.Generated.TrsSelect",
+        "open Midgard.Geo",
+        "",
+        "/-- the statements of `_trs2llh` that store into `lat` / `height`, in execution order, for `trs.ndim == 2` -/",
+        "def prog2d : List SelStmt := [" + ", ".join(prog2) + "]",
+        "",
+        "/-- … and for a single position (`trs.ndim == 1`) -/",
+        "def prog1d : List SelStmt := [" + ", ".join(prog1) + "]",
+        "",
+        "/-- the columns of the result, `np.stack((…)).T` -/",
+        "def stackOrder : List String := [" + ", ".join(util.lean_str(x) for x in stack) + "]",
+        "",
+        "/-- `pi` is `np.pi` (broadcast over the rows when `trs.ndim == 2`) -/",
+        "def piIsPi : Bool := " + ("true" if pi_ok else "false"),
+        "",
+        "end Midgard.Generated.TrsSelect",
+        "",
+    ]
+    return "\n".join(out)
+
+
 def write_all() -> dict:
-    return {"EllipsoidArith.lean": util.write_if_changed("EllipsoidArith.lean", render())}
+    return {"EllipsoidArith.lean": util.write_if_changed("EllipsoidArith.lean", render()),
+            "TrsSelect.lean": util.write_if_changed("TrsSelect.lean", render_select())}
 
 
 if __name__ == "__main__":
